@@ -174,7 +174,7 @@ Pre(s, op, a) ==
     [] op = "reset_thermo" -> a.x \in Names /\ a.pkg \in Pkgs /\ Alone(t, a.x) /\ \A c \in 1..NC : Tot(t[a.x])[c] # 0 => c \in PkgChems[a.pkg]
     [] OTHER -> FALSE
 
-Exc(s, op, a) == IF op = "ubad" THEN "DimensionError" ELSE None
+Exc(s, op, a) == None
 
 Post(s, op, a) ==
   LET t == s.st IN
@@ -313,7 +313,9 @@ Judge(s, e) ==
       op == e.op
       p == Post(s, op, a)
   IN
-  IF e.obs.exc # Exc(s, e.op, e.a) THEN "exception"
+  IF e.op = "ubad" THEN      \* dimensionally inconsistent units must be rejected (whatever the exception class)
+       IF e.obs.exc = None THEN "bad_units_accepted" ELSE IF e.post.st # s.st THEN "frame" ELSE "ok"
+  ELSE IF e.obs.exc # Exc(s, e.op, e.a) THEN "exception"
   ELSE IF ~Legal(e.post) THEN "post.illformed"
   ELSE IF e.post.sv # p.sv THEN "post.saved"
   ELSE IF op = "mix_from" THEN
